@@ -20,16 +20,27 @@ inductive Id where
 /-- `Node.ENDSECTIONS_LEVEL` -/
 def endSections : Int := 100
 
+/-- what templates and navigation read on a node besides its level and id: the number (`node.ref`,
+    `""` = none) and whether the node is a `\footnote` (registered in `userdata['footnotes']`; its template prints
+    a mark `<a href="#id">`, its text is printed by the layout of the file that owns it) -/
+structure Info where
+  num : String
+  foot : Bool := false
+  deriving DecidableEq, Repr, Inhabited
+
+instance : Coe String Info := ⟨fun s => { num := s }⟩
+
 /-- render tree.  `id = none`: `@id` not set yet (the getter will draw from `idgen`);
     `file = none`: `Renderer.files` has no entry / `filename` returned `None`. -/
 inductive Tree where
-  | node (level : Int) (id : Option Id) (num : String) (file : Option Nat) (kids : List Tree)
+  | node (level : Int) (id : Option Id) (info : Info) (file : Option Nat) (kids : List Tree)
   deriving Repr, Inhabited
 
 namespace Tree
 def level : Tree → Int | .node l _ _ _ _ => l
 def id : Tree → Option Id | .node _ i _ _ _ => i
-def num : Tree → String | .node _ _ n _ _ => n
+def num : Tree → String | .node _ _ n _ _ => n.num
+def foot : Tree → Bool | .node _ _ n _ _ => n.foot
 def file : Tree → Option Nat | .node _ _ _ f _ => f
 def kids : Tree → List Tree | .node _ _ _ _ k => k
 end Tree
@@ -257,5 +268,58 @@ def nestsList (lv : Int) : List Tree → Bool
   | [] => true
   | k :: ks => decide (lv ≤ k.level) && nests k && nestsList lv ks
 end
+
+/-! ### effective split level, footnotes -/
+
+/-- Python `str.strip()` on the characters the model distinguishes -/
+def isWs (c : Char) : Bool := c == ' ' || c == '\t' || c == '\n' || c == '\r' || c == '\x0b' || c == '\x0c'
+def strip (cs : List Char) : List Char := ((cs.dropWhile isWs).reverse.dropWhile isWs).reverse
+
+/-- `Renderer.render`: `self.level = config['files']['split-level']`; a filename template without blank and
+    without `[` names a single file and forces level −10 (while `config['files']['split-level']` keeps its value) -/
+def effSplit (split : Int) (template : List Char) : Int :=
+  if (strip template).any (fun c => c == ' ' || c == '[') then split else -10
+
+/-- `SectionUtils.footnotes`, seen from a footnote whose ancestors are `anc` (nearest first):
+    `s = f.currentSection` (`Macro.currentSection`: the nearest ancestor with `level < ENDSECTIONS_LEVEL`);
+    `while s is not None and not s.filename: s = s.currentSection`; the footnote belongs to that `s` -/
+def footOwner : List Tree → Option Nat
+  | [] => none
+  | a :: rest =>
+    if isSub a then
+      match a.file with
+      | some f => some f
+      | none => footOwner rest
+    else footOwner rest
+
+/- every footnote of the tree (pre-order) with the file its mark `<a href="#id">` is printed in (the file of
+   the footnote's own URL: the mark is part of the parent's string) and the file whose layout prints its text
+   (`<li id="id">` in the footer of the owning section's file) -/
+mutual
+def footnotes (anc : List Tree) : Tree → List (Tree × Option Nat × Option Nat)
+  | .node lv id info file kids =>
+    (if info.foot then [(.node lv id info file kids, (url (.node lv id info file kids) anc).file, footOwner anc)] else []) ++
+      footnotesList (.node lv id info file kids :: anc) kids
+def footnotesList (anc : List Tree) : List Tree → List (Tree × Option Nat × Option Nat)
+  | [] => []
+  | t :: ts => footnotes anc t ++ footnotesList anc ts
+end
+
+/- a predicate on (level, info, file) holds at every node -/
+mutual
+def allNodes (P : Int → Info → Option Nat → Bool) : Tree → Bool
+  | .node lv _ info file kids => P lv info file && allNodesList P kids
+def allNodesList (P : Int → Info → Option Nat → Bool) : List Tree → Bool
+  | [] => true
+  | t :: ts => allNodes P t && allNodesList P ts
+end
+
+/-- input documents: nothing has a file yet, footnotes are not sections -/
+def inputOK (t : Tree) : Bool :=
+  allNodes (fun lv info file => file.isNone && (!info.foot || decide (endSections ≤ lv))) t
+
+/-- rendered trees: only sections create files, footnotes are not sections -/
+def navOK (t : Tree) : Bool :=
+  allNodes (fun lv info file => (!file.isSome || decide (lv < endSections)) && (!info.foot || decide (endSections ≤ lv))) t
 
 end PlasVerif.Model.Urls
